@@ -114,7 +114,20 @@ func init() {
 			return e.tb.Const(t.S.W, e.Concretize(t, "verif_Concretize"))
 		},
 		"verif_Symbolic": func(e *Engine, fr *frame, a []Value) Value { return e.tb.True },
-		"verif_Yield":    func(e *Engine, fr *frame, a []Value) Value { e.Yield(); return nil },
+		"verif_Yield": func(e *Engine, fr *frame, a []Value) Value {
+			e.explicitYield = true
+			defer func() { e.explicitYield = false }()
+			e.Yield()
+			return nil
+		},
+		"verif_Spawn": func(e *Engine, fr *frame, a []Value) Value {
+			fn := a[0]
+			e.Spawn("verif_Spawn", func(t *Thread) { e.call(nil, t, fn, nil, 0) })
+			e.explicitYield = true
+			defer func() { e.explicitYield = false }()
+			e.Yield()
+			return nil
+		},
 		"verif_Quiesce":  func(e *Engine, fr *frame, a []Value) Value { return e.mkInt(int64(e.Quiesce())) },
 		"verif_AnyOrder": func(e *Engine, fr *frame, a []Value) Value { e.anyOrder = a[0].(*Term).IsTrue(); return nil },
 		"verif_Ite": func(e *Engine, fr *frame, a []Value) Value {
